@@ -28,20 +28,23 @@ def run(prop, tier, vseed):
         plan = [
             (rm, [{"alphabet": "full", "depth": 2}]),
             (tm, [{"alphabet": "full", "depth": 1, "seeds": "xmlctor"},
-                  {"alphabet": "mini", "depth": 2, "seeds": "rep6"}]),
+                  {"alphabet": "mini", "depth": 2, "seeds": "rep6"},
+                  {"alphabet": "mini", "depth": 2, "seeds": "preread"}]),
         ]
     elif tier == "quick":
         plan = [
             (rm, [{"alphabet": "full", "depth": 2}, {"alphabet": "mini", "depth": 3}]),
             (tm, [{"alphabet": "full", "depth": 1, "seeds": "xmlctor"},
-                  {"alphabet": "mini", "depth": 2, "seeds": "rep"}]),
+                  {"alphabet": "mini", "depth": 2, "seeds": "rep"},
+                  {"alphabet": "mini", "depth": 2, "seeds": "preread"}]),
         ]
     else:
         plan = [
             (rm, [{"alphabet": "full", "depth": 3}, {"alphabet": "sub", "depth": 4}]),
             (tm, [{"alphabet": "full", "depth": 1, "seeds": "all"},
                   {"alphabet": "full", "depth": 2, "seeds": "xmlctor"},
-                  {"alphabet": "mini", "depth": 3, "seeds": "rep"}]),
+                  {"alphabet": "mini", "depth": 3, "seeds": "rep"},
+                  {"alphabet": "sub", "depth": 2, "seeds": "preread"}]),
         ]
     extra_f, extra_c = [], None
     if prop == "C07":
